@@ -102,7 +102,7 @@ add("C19",
     "DESIGN.md 3/C19")
 add("C20",
     _CH + " of the xmlsec1 call sites (validate_signature/_run_xmlsec/parse_xmlsec_output, _check_signature cert loop, sign_statement, encrypt_assertion, decrypt_keys, metadata verification) against a process model whose return code, stdout, stderr and output file are symbolic",
-    "Every observable of a tool run is an arbitrary value (return code incl. signals, stdout, stderr as symbolic strings up to 4/6 chars, output file text, cannot start); verification returns True only when success was genuinely reported, signing/encryption with no result raise, decryption returns only genuinely produced text, unverified metadata is never served afterwards.",
+    "Every observable of a tool run is an arbitrary value (return code incl. signals, stdout, stderr as symbolic strings up to 4/5 chars, output file text, cannot start); verification returns True only when success was genuinely reported, signing/encryption with no result raise, decryption returns only genuinely produced text, unverified metadata is never served afterwards.",
     "Trusted: CrossHair/z3; process boundary model (Popen, temp files); what a successful-looking run wrote is xmlsec1's responsibility.",
     "DESIGN.md 3/C20")
 
